@@ -347,3 +347,26 @@ package j5convert
 //@ func buildProperty
 //@   ensures label.repeated: result1 == nil && (typeis(node.Field.Schema, *schema_j5pb.Field_Array) || typeis(node.Field.Schema, *schema_j5pb.Field_Map)) ==> result0.Label != nil && *result0.Label == descriptorpb.FieldDescriptorProto_LABEL_REPEATED
 //@   ensures label.optional: result1 == nil && node.Schema.ExplicitlyOptional ==> result0.Proto3Optional != nil && *result0.Proto3Optional
+
+// ---- entity annotation and topic services (C17, C16) -----------------------------------------------------------
+// Every message generated for an entity part carries (j5.ext.v1.psm) with the entity's name and that
+// part; this is what the schema reader and the client use to regroup the parts. A topic becomes a
+// service of that name with the messaging annotation and one rpc per message: input the message type,
+// output google.protobuf.Empty.
+//@ func (*conversionVisitor).visitObjectNode
+//@   requires fileOK(ww) && node != nil
+//@   assert at SetExtension#0 psm: as(*descriptorpb.MessageOptions, arg0) == message.descriptor.Options && *message.descriptor.Name == node.Name
+//@   |   && as(*ext_j5pb.PSMOptions, arg2).EntityName == node.Entity.Entity && as(*ext_j5pb.PSMOptions, arg2).EntityPart != nil && *as(*ext_j5pb.PSMOptions, arg2).EntityPart == node.Entity.Part
+//@   assert at SetExtension#0 imported: imported(ww, "j5/ext/v1/annotations.proto")
+//@ func (*conversionVisitor).visitTopicNode
+//@   requires fileOK(ww) && tn != nil
+//@   requires forall i int {tn.Methods[i]} :: 0 <= i && i < len(tn.Methods) ==> tn.Methods[i] != nil
+//@   assert at addService#0 shape: arg1 != nil && arg1.desc == desc && *desc.Name == tn.Name && len(desc.Method) == len(tn.Methods)
+//@   |   && extof(messaging_j5pb.E_Service, desc.Options) == tn.ServiceConfig
+//@   assert at addService#0 methods: forall j int {desc.Method[j]} :: 0 <= j && j < len(tn.Methods) ==> desc.Method[j] != nil && *desc.Method[j].Name == tn.Methods[j].Name
+//@   |   && *desc.Method[j].InputType == tn.Methods[j].Request && *desc.Method[j].OutputType == ".google.protobuf.Empty"
+//@   assert at addService#0 imported: imported(ww, "j5/messaging/v1/annotations.proto") && imported(ww, "google/protobuf/empty.proto")
+//@   loop 0 invariant desc != nil && fresh(desc) && len(desc.Method) == $iter && fileOK(ww) && *desc.Name == tn.Name && extof(messaging_j5pb.E_Service, desc.Options) == tn.ServiceConfig
+//@   loop 0 invariant forall i int {tn.Methods[i]} :: 0 <= i && i < len(tn.Methods) ==> tn.Methods[i] != nil
+//@   loop 0 invariant forall j int {desc.Method[j]} :: 0 <= j && j < $iter ==> desc.Method[j] != nil && *desc.Method[j].Name == tn.Methods[j].Name
+//@   |   && *desc.Method[j].InputType == tn.Methods[j].Request && *desc.Method[j].OutputType == ".google.protobuf.Empty"
